@@ -362,6 +362,23 @@ pub fn run_path(w: &mut World, a: &Alpha, ch: &mut Chooser) -> Vec<Act> {
     acts
 }
 
+/// Like run_path but without the end-of-script wrap-up (the caller continues the scenario).
+pub fn run_path_nofinish(w: &mut World, a: &Alpha, ch: &mut Chooser) -> Vec<Act> {
+    let mut acts = Vec::new();
+    loop {
+        let en = enabled(w, a);
+        let Some(c) = ch.choose(en.len()) else { break };
+        let act = en[c];
+        acts.push(act);
+        apply(w, act);
+        w.settle_check();
+        if w.blind {
+            break;
+        }
+    }
+    acts
+}
+
 /// Random walk of `steps` actions.
 pub fn run_walk(w: &mut World, a: &Alpha, rng: &mut Rng, steps: usize) -> Vec<Act> {
     let mut acts = Vec::new();
